@@ -265,7 +265,7 @@ theorem C13_full_reduction_axis (E : Env α δ)
       have e2 : (pre ++ post ++ [(k, PyVal.one bs[i])])[j] = (pre ++ post)[j] :=
         List.getElem_append_left hj
       rw [e1, e2]
-      refine ⟨trivial, noblk_proj (hnb _ (List.getElem_mem hj))⟩
+      refine ⟨rfl, noblk_proj (hnb _ (List.getElem_mem hj))⟩
     · have hj' : j = (pre ++ post).length := by
         simp only [List.length_append, List.length_singleton] at h1 hj ⊢; omega
       subst hj'
